@@ -566,7 +566,8 @@ fn compile_reference_inputs(tx: &tir::Tx) -> Result<Vec<primitives::TransactionI
 }
 
 fn compile_collateral(tx: &tir::Tx) -> Result<Vec<TransactionInput>, Error> {
-    tx.collateral
+    let mut refs: Vec<TransactionInput> = tx
+        .collateral
         .iter()
         .filter_map(|collateral| collateral.utxos.as_option())
         .flat_map(coercion::expr_into_utxo_refs)
@@ -577,7 +578,14 @@ fn compile_collateral(tx: &tir::Tx) -> Result<Vec<TransactionInput>, Error> {
                 index: x.index as u64,
             })
         })
-        .collect()
+        .collect::<Result<_, Error>>()?;
+
+    // utxo sets are hash sets: emit the collateral in a fixed order, each utxo once, so that
+    // the payload doesn't depend on iteration order
+    refs.sort_by_key(|x| (x.transaction_id, x.index));
+    refs.dedup();
+
+    Ok(refs)
 }
 
 fn compile_required_signers(tx: &tir::Tx) -> Result<Option<primitives::RequiredSigners>, Error> {
